@@ -672,7 +672,12 @@ class FmtStr:
         counter = 0
         parts = []
         for chunk in self.chunks:
-            if index.start < counter + chunk.width and index.stop > counter:
+            # a run that begins right behind the last column of the slice: zero-width characters
+            # at its beginning combine with that column's character, as they do inside one run
+            at_the_end = index.start < counter == index.stop
+            if (
+                index.start < counter + chunk.width and index.stop > counter
+            ) or at_the_end:
                 start = max(0, index.start - counter)
                 end = min(index.stop - counter, chunk.width)
                 if end - start == chunk.width:
@@ -683,7 +688,8 @@ class FmtStr:
                     s_part = width_aware_slice(
                         chunk.s, index.start - counter, index.stop - counter
                     )
-                    parts.append(Chunk(s_part, chunk.atts))
+                    if s_part or not at_the_end:
+                        parts.append(Chunk(s_part, chunk.atts))
             counter += chunk.width
             if index.stop < counter:
                 break
